@@ -83,6 +83,17 @@ func main() {
 		if i%7 == 0 {
 			t.MsgType = "A"
 		}
+		if i%5 == 2 && oo.Trailer {
+			// the trailer template declares a member for the CheckSum tag itself (as generated trailers do), at any position,
+			// next to at least one other member
+			if len(t.Trailer) == 0 {
+				t.Trailer = append(t.Trailer, &gen.Node{NK: gen.NField, Tag: t.FreshTag(r), VK: gen.KString})
+			}
+			at := r.Intn(len(t.Trailer) + 1)
+			sum := &gen.Node{NK: gen.NField, Tag: t.FT.Sum, VK: []gen.Kind{gen.KString, gen.KInt, gen.KRaw}[r.Intn(3)]}
+			t.Trailer = append(t.Trailer[:at], append([]*gen.Node{sum}, t.Trailer[at:]...)...)
+			c.SetAdd("checksum_member_position_in_trailer", fmt.Sprintf("%d-of-%d", at, len(t.Trailer)))
+		}
 		// steering field: a String in the body
 		steerTag := "7"
 		for used := map[string]bool{}; ; {
